@@ -91,7 +91,10 @@ class Gen:
             form = rnd.choice(["{e}", "x = {e}", "x += {e}", "return {e}", "assert {e}", "assert c, {e}", "if {e}:\n{i}    pass",
                                "while {e}:\n{i}    break", "for i in {e}:\n{i}    pass", "with {e} as w:\n{i}    pass",
                                "try:\n{i}    y = {e}\n{i}except E:\n{i}    pass", "{n} = 5", "y: int = {e}", "del {n}", "raise E({e})",
-                               "for {n} in it:\n{i}    z = {n}", "with open(p) as {n}:\n{i}    q = {n}"])
+                               "for {n} in it:\n{i}    z = {n}", "with open(p) as {n}:\n{i}    q = {n}",
+                               "while c:\n{i}    break\n{i}else:\n{i}    w = {e}", "for i in xs:\n{i}    pass\n{i}else:\n{i}    w = {e}",
+                               "try:\n{i}    pass\n{i}except E:\n{i}    {n} = 1\n{i}    w = {e}", "{n} = 1\n{i}w = {e}\n{i}{n} = 2",
+                               "w = {e}\n{i}{n} = 2"])
             if "return" in form and gen_kind:
                 continue
             self.tags.append("body:" + form.split("{")[0].strip().split(" ")[0].split(":")[0] or "expr")
